@@ -42,6 +42,7 @@ pub fn outcome(with_panic: bool) -> BoxedStrategy<Out> {
             5 => Just(Out::Ok),
             3 => (1u32..5).prop_map(Out::Err),
             1 => Just(Out::Panic),
+            1 => Just(Out::PanicInCall),
         ]
         .boxed()
     } else {
